@@ -313,8 +313,40 @@ def rule_g(R, ctx):
         R.ob("C11.g", fn, "set:" + setname, okk, "`%s.insert(item.id)` sits in the %s branch" % (setname, kind))
 
 
+def rule_h(R, ctx, rid="C11.h"):
+    Y = ctx.yrs
+    R.rule(rid, "R-PROV subject of an event: every change summary an event hands out — TextEvent::get_delta, types::event_keys, "
+                "types::event_change_set — is computed over the event's own `target`; `current_target` (the type whose deep "
+                "observer is being called, an ancestor during bubbling) is used only as the first argument of Branch::path, "
+                "whose second argument is again `target`")
+    n = 0
+    for root, css in sorted(callers_of(Y, "yrs::types::text::TextEvent::get_delta", "yrs::types::event_keys",
+                                       "yrs::types::event_change_set", "yrs::branch::Branch::path").items()):
+        for cs, site in ordinal_sites(css):
+            if not re.search(r"Event::\w+(::\{closure#\d+\})?$", cs.fn.path):
+                continue
+            v = FnView(cs.fn)
+            nm = F.strip_generics(cs.name).rsplit("::", 1)[-1]
+            idx = {"get_delta": 0, "event_keys": 1, "event_change_set": 1, "path": 1}[nm]
+            n += 1
+
+            def fields(t):
+                return [x[1].rsplit(".", 1)[-1] for x in walk(simp_deep(t)) if isinstance(x, tuple) and x and x[0] == "field"
+                        and re.search(r"Event\.\w+$", x[1])]
+            subj = fields(v.arg(cs, idx))
+            ok = subj == ["target"]
+            why = "%s computed over %s" % (nm, sshow(v.arg(cs, idx)))
+            if nm == "path":
+                frm = fields(v.arg(cs, 0))
+                ok = ok and frm == ["current_target"]
+                why = "path from %s to %s" % (sshow(v.arg(cs, 0)), sshow(v.arg(cs, 1)))
+            R.ob(rid, cs.fn, site, ok, why, cs.loc())
+    R.floor(rid, "change computations and paths of event types", n, 10)
+
+
 def check(ctx, R):
     R.run("C11.a", rule_a, ctx)
+    R.run("C11.h", rule_h, ctx)
     R.run("C11.b", rule_b, ctx)
     R.run("C11.d", rule_d, ctx)
     R.run("C11.e", rule_e, ctx)
